@@ -66,6 +66,20 @@ def judge_branches(part, mk, fn, k, base, res, trace, sp, imp):
         if trace.false_distances.get(pid) == 0.0:
             rep.add((meta.line_no, False))
     mon = {(ln, o) for (_n, ln, _op, o) in branches}
+    # the entry of a branch-less code object is reported exactly when the interpreter entered that code object
+    if r0[0] == res[0] and r0[1] == res[1] and hasattr(lines, "entered"):
+        branchless = {cid: (sp.existing_code_objects[cid].code_object.co_name, sp.existing_code_objects[cid].code_object.co_firstlineno)
+                      for cid in sp.branch_less_code_objects}
+        rep_entries = {branchless[cid] for cid in trace.executed_code_objects if cid in branchless and cid not in imp.executed_code_objects}
+        mon_entries = {e for e in lines.entered if e in set(branchless.values())}
+        # (code objects the import already entered, e.g. <module> and class bodies, are subtracted from later traces)
+        imported = {branchless[cid] for cid in imp.executed_code_objects if cid in branchless}
+        if rep_entries != mon_entries - imported:
+            part.violation("the entry of a branch-less code object is reported as covered exactly when the interpreter entered it",
+                           f"branchless-entry:{fn}", {"function": fn, "vector": k, "metrics": mk,
+                                                      "entered_not_reported": sorted(mon_entries - imported - rep_entries),
+                                                      "reported_not_entered": sorted(rep_entries - mon_entries)},
+                           target=f"{TRC}:ExecutionTracer.executed_code_object")
     if rep == mon:
         return
     detail = {"function": fn, "vector": k, "metrics": mk, "taken_not_reported(line,outcome)": sorted(mon - rep, key=repr),
